@@ -485,6 +485,320 @@ theorem castMask_tiles_fltStack (segs : List Nat) (t : SegType) (R C tr tc : Nat
     simp only [List.map_cons, List.map_nil] at hl
     exact castLabelmap_tiles_stack segs t R C tr tc _ _ r hl
 
+/-! ### ... and a matrix that is refused is refused tile-wise, with the same kind of error -/
+
+theorem mapE_error_of_mem {α β ε} (f : α → Except ε β) (l : List α) (e : ε) (hall : ∀ a ∈ l, ∀ e', f a = .error e' → e' = e)
+    (a : α) (ha : a ∈ l) (e0 : ε) (hf : f a = .error e0) : mapE f l = .error e := by
+  induction l with
+  | nil => cases ha
+  | cons b t ih =>
+    simp only [mapE]
+    cases hb : f b with
+    | error e' => rw [hall b (by simp) e' hb]
+    | ok v =>
+      have hat : a ∈ t := by
+        rcases List.mem_cons.mp ha with rfl | h
+        · rw [hf] at hb; cases hb
+        · exact h
+      rw [ih (fun c hc => hall c (List.mem_cons_of_mem _ hc)) hat]
+
+theorem mapE_error_inv {α β ε} (f : α → Except ε β) (l : List α) (e : ε) (h : mapE f l = .error e) :
+    ∃ a ∈ l, f a = .error e := by
+  induction l with
+  | nil => cases h
+  | cons b t ih =>
+    simp only [mapE] at h
+    cases hb : f b with
+    | error e' => rw [hb] at h; simp only [Except.error.injEq] at h; exact ⟨b, by simp, by rw [hb, h]⟩
+    | ok v =>
+      rw [hb] at h
+      cases ht : mapE f t with
+      | error e' =>
+        rw [ht] at h; simp only [Except.error.injEq] at h
+        obtain ⟨a, ha, hfa⟩ := ih (by rw [ht, h])
+        exact ⟨a, List.mem_cons_of_mem _ ha, hfa⟩
+      | ok vs => rw [ht] at h; cases h
+
+theorem combinePixel_error_kind (segs : List Nat) (ch : List Nat) (e : ErrKind) (h : combinePixel segs ch = .error e) :
+    e = .index := by
+  unfold combinePixel at h
+  split at h
+  · cases h
+  · simp only [Except.error.injEq] at h; exact h.symm
+
+/-- `castLabelmap` on a stack of integers fails for the tiles if it fails for the matrix (same kind) -/
+theorem castLabelmap_tiles_stack_error (segs : List Nat) (t : SegType) (R C tr tc : Nat) (htr : 1 ≤ tr) (htc : 1 ≤ tc)
+    (q0 : List (List Nat)) (hlen : q0.length = R * C) (ov : Overlap) (e : ErrKind)
+    (h : castLabelmap segs t (.intStack [q0], ov) = .error e) :
+    castLabelmap segs t (.intStack (tilesOf (zeroLike 0 q0) R C tr tc q0), ov) = .error e := by
+  unfold castLabelmap at h ⊢
+  by_cases ht : t = .labelmap
+  · simp only [ht, ↓reduceIte] at h ⊢
+    by_cases hov : ov = .yes
+    · simp only [hov, ↓reduceIte] at h ⊢; exact h
+    · simp only [hov, ↓reduceIte] at h ⊢
+      simp only [mapE] at h
+      cases hq : mapE (combinePixel segs) q0 with
+      | ok lab0 => rw [hq] at h; simp at h
+      | error e0 =>
+        rw [hq] at h
+        simp only [Except.error.injEq] at h
+        subst h
+        obtain ⟨ch, hch, hfc⟩ := mapE_error_inv _ q0 e0 hq
+        have hk := combinePixel_error_kind segs ch e0 hfc
+        obtain ⟨tile, htile, hct⟩ := mem_tiles_of_mem (zeroLike 0 q0) R C tr tc htr htc q0 hlen ch hch
+        have hinner : mapE (combinePixel segs) tile = .error e0 :=
+          mapE_error_of_mem _ tile e0 (fun a _ e' he' => by rw [combinePixel_error_kind segs a e' he', hk]) ch hct e0 hfc
+        rw [mapE_error_of_mem (fun pl => mapE (combinePixel segs) pl) _ e0
+          (fun pl _ e' he' => by
+            obtain ⟨a, _, hfa⟩ := mapE_error_inv _ pl e' he'
+            rw [combinePixel_error_kind segs a e' hfa, hk]) tile htile e0 hinner]
+  · simp only [ht, ↓reduceIte] at h
+    cases h
+
+theorem castMask_error_inv (segs : List Nat) (t : SegType) (m : Mask) (e : ErrKind) (hnp : m.numPlanes ≠ 0)
+    (hsz : ∀ sz ∈ m.planeSizes, sz ≠ 0) (h : castMask segs t m = .error e) :
+    (chanOk segs.length m = false ∧ e = .value) ∨
+    (chanOk segs.length m = true ∧ castValues segs t m = .error e) ∨
+    (chanOk segs.length m = true ∧ ∃ r0, castValues segs t m = .ok r0 ∧ castLabelmap segs t r0 = .error e) := by
+  unfold castMask at h
+  split at h
+  · rename_i hc
+    left
+    simp only [Except.error.injEq] at h
+    exact ⟨by simpa using hc, h.symm⟩
+  · rename_i hc
+    have hc' : chanOk segs.length m = true := by simpa using hc
+    split at h
+    · rename_i he
+      exfalso
+      rcases he with h0 | h0
+      · exact hnp h0
+      · obtain ⟨sz, hm, hz⟩ := List.any_eq_true.mp h0
+        exact hsz sz hm (by simpa using hz)
+    · right
+      cases hv : castValues segs t m with
+      | error e' =>
+        rw [hv] at h
+        simp only [Except.error.injEq] at h
+        left; exact ⟨hc', by rw [h]⟩
+      | ok r0 => rw [hv] at h; right; exact ⟨hc', r0, rfl, h⟩
+
+theorem castMask_of_error (segs : List Nat) (t : SegType) (m : Mask) (e : ErrKind) (hchan : chanOk segs.length m = true)
+    (hnp : m.numPlanes ≠ 0) (hsz : ∀ sz ∈ m.planeSizes, sz ≠ 0) (hv : castValues segs t m = .error e) :
+    castMask segs t m = .error e := by
+  unfold castMask
+  rw [if_neg (by simpa using hchan)]
+  rw [if_neg]
+  · rw [hv]
+  · rintro (hc | hc)
+    · exact hnp hc
+    · obtain ⟨sz, hm, hz⟩ := List.any_eq_true.mp hc
+      exact hsz sz hm (by simpa using hz)
+
+theorem castMask_chan_error (segs : List Nat) (t : SegType) (m : Mask) (hchan : chanOk segs.length m = false) :
+    castMask segs t m = .error .value := by
+  unfold castMask
+  rw [if_pos (by simp [hchan])]
+
+theorem one_plane_ok (R C : Nat) (hR : 1 ≤ R) (hC : 1 ≤ C) (m : Mask) (hnp : m.numPlanes = 1)
+    (hsz : ∀ sz ∈ m.planeSizes, sz = R * C) : m.numPlanes ≠ 0 ∧ ∀ sz ∈ m.planeSizes, sz ≠ 0 := by
+  refine ⟨by omega, fun sz h => ?_⟩
+  rw [hsz sz h]
+  exact Nat.ne_of_gt (Nat.mul_pos (by omega) (by omega))
+
+/-- a refused matrix is refused tile-wise, with the same kind of error -/
+theorem castMask_tileMask_error (segs : List Nat) (t : SegType) (R C tr tc : Nat) (hR : 1 ≤ R) (hC : 1 ≤ C) (htr : 1 ≤ tr)
+    (htc : 1 ≤ tc) (m : Mask) (hnp : m.numPlanes = 1) (hsz : ∀ sz ∈ m.planeSizes, sz = R * C) (e : ErrKind)
+    (hcm : castMask segs t m = .error e) : castMask segs t (tileMask R C tr tc m) = .error e := by
+  obtain ⟨hnp0, hsz0⟩ := one_plane_ok R C hR hC m hnp hsz
+  cases m with
+  | intLabel ps =>
+    obtain ⟨p0, rfl⟩ := List.length_eq_one_iff.mp hnp
+    have hlen : p0.length = R * C := hsz _ (by simp [Mask.planeSizes])
+    have hund : undescribed segs (tilesOf 0 R C tr tc p0) = undescribed segs [p0] := by
+      unfold undescribed
+      simp only []
+      have h1 : listMax ((tilesOf 0 R C tr tc p0).map listMax) = listMax ([p0].map listMax) := by
+        have := listMax_tiles 0 R C tr tc htr htc p0 hlen (fun v => v) rfl
+        simp only [List.map_id'] at this
+        simp only [List.map_cons, List.map_nil, listMax_singleton]
+        exact this
+      rw [h1, any_tiles_single 0 R C tr tc htr htc p0 hlen (fun v => decide (¬ v ∈ 0 :: segs)) (by simp)]
+    show castMask segs t (.intLabel (tilesOf 0 R C tr tc p0)) = .error e
+    rcases castMask_error_inv segs t _ e hnp0 hsz0 hcm with ⟨hc, _⟩ | ⟨_, hv⟩ | ⟨_, r0, hv, hl⟩
+    · simp [chanOk] at hc
+    · simp only [castValues] at hv
+      split at hv
+      · rename_i hu
+        simp only [Except.error.injEq] at hv
+        subst hv
+        exact castMask_of_error segs t _ _ rfl (tiles_length_ne_zero 0 R C tr tc hR hC htr htc p0)
+          (tiles_sizes_ne_zero 0 R C tr tc htr htc p0) (by simp only [castValues, hund, hu, ↓reduceIte])
+      · cases hv
+    · simp only [castValues] at hv
+      split at hv
+      · cases hv
+      · simp only [Except.ok.injEq] at hv
+        subst hv
+        rw [castLabelmap_label segs t _ (by intro ps hc; cases hc)] at hl
+        cases hl
+  | fltLabel ps =>
+    obtain ⟨p0, rfl⟩ := List.length_eq_one_iff.mp hnp
+    have hlen : p0.length = R * C := hsz _ (by simp [Mask.planeSizes])
+    have h1 := any_tiles_single (0 : Rat) R C tr tc htr htc p0 hlen (fun x => decide (x < 0 ∨ 1 < x)) (by simp)
+    have h2 := any_tiles_single (0 : Rat) R C tr tc htr htc p0 hlen (fun x => decide (0 < x ∧ x < 1)) (by simp)
+    have h3 := any_tiles_single (0 : Rat) R C tr tc htr htc p0 hlen (fun x => decide (x = 1)) (by simp)
+    have hcv : ∀ e', castValues segs t (.fltLabel [p0]) = .error e' →
+        castValues segs t (.fltLabel (tilesOf 0 R C tr tc p0)) = .error e' := by
+      intro e' hv
+      simp only [castValues, h1, h2, h3] at hv ⊢
+      split at hv
+      · rename_i hr; simp only [hr, ↓reduceIte]; exact hv
+      rename_i hr
+      simp only [hr, ↓reduceIte]
+      by_cases ht : t = .fractional
+      · simp only [ht, ↓reduceIte] at hv ⊢
+        split at hv
+        · rename_i h1'; simp only [h1', ↓reduceIte]; exact hv
+        · cases hv
+      · simp only [ht, ↓reduceIte] at hv ⊢
+        split at hv
+        · rename_i hb; simp only [hb, ↓reduceIte]; exact hv
+        rename_i hb
+        simp only [hb, ↓reduceIte]
+        split at hv
+        · rename_i hd; simp only [hd, ↓reduceIte]; exact hv
+        · cases hv
+    show castMask segs t (.fltLabel (tilesOf 0 R C tr tc p0)) = .error e
+    rcases castMask_error_inv segs t _ e hnp0 hsz0 hcm with ⟨hc, _⟩ | ⟨_, hv⟩ | ⟨_, r0, hv, hl⟩
+    · simp [chanOk] at hc
+    · exact castMask_of_error segs t _ _ rfl (tiles_length_ne_zero (0 : Rat) R C tr tc hR hC htr htc p0)
+        (tiles_sizes_ne_zero (0 : Rat) R C tr tc htr htc p0) (hcv e hv)
+    · exfalso
+      simp only [castValues] at hv
+      split at hv
+      · cases hv
+      split at hv
+      · split at hv
+        · cases hv
+        · simp only [Except.ok.injEq] at hv; subst hv
+          rw [castLabelmap_label segs t _ (by intro ps hc; cases hc)] at hl; cases hl
+      · split at hv
+        · cases hv
+        split at hv
+        · cases hv
+        · simp only [Except.ok.injEq] at hv; subst hv
+          rw [castLabelmap_label segs t _ (by intro ps hc; cases hc)] at hl; cases hl
+  | intStack ps =>
+    obtain ⟨p0, rfl⟩ := List.length_eq_one_iff.mp hnp
+    have hlen : p0.length = R * C := hsz _ (by simp [Mask.planeSizes])
+    have hne : p0 ≠ [] := by
+      intro h; rw [h] at hlen; simp at hlen
+      have : 0 < R * C := Nat.mul_pos (by omega) (by omega)
+      omega
+    show castMask segs t (.intStack (tilesOf (zeroLike 0 p0) R C tr tc p0)) = .error e
+    rcases castMask_error_inv segs t _ e hnp0 hsz0 hcm with ⟨hc, he⟩ | ⟨hc, hv⟩ | ⟨hc, r0, hv, hl⟩
+    · subst he
+      apply castMask_chan_error
+      simp only [chanOk, List.all_cons, List.all_nil, Bool.and_true] at hc
+      obtain ⟨ch, hch, hbad⟩ := List.all_eq_false.mp hc
+      obtain ⟨tile, htile, hct⟩ := mem_tiles_of_mem (zeroLike 0 p0) R C tr tc htr htc p0 hlen ch hch
+      simp only [chanOk]
+      rw [List.all_eq_false]
+      exact ⟨tile, htile, by rw [Bool.not_eq_true, List.all_eq_false]; exact ⟨ch, hct, hbad⟩⟩
+    · simp only [castValues] at hv
+      split at hv
+      · rename_i hmax
+        simp only [Except.error.injEq] at hv
+        subst hv
+        exact castMask_of_error segs t _ _ (chanOk_tiles_int _ R C tr tc p0 hne hc)
+          (tiles_length_ne_zero _ R C tr tc hR hC htr htc p0) (tiles_sizes_ne_zero _ R C tr tc htr htc p0)
+          (by simp only [castValues, stackMax_tiles R C tr tc htr htc p0 hlen, hmax, ↓reduceIte])
+      · cases hv
+    · simp only [castValues] at hv
+      split at hv
+      · cases hv
+      rename_i hmax
+      simp only [Except.ok.injEq] at hv
+      subst hv
+      rw [castMask_of segs t (.intStack (tilesOf (zeroLike 0 p0) R C tr tc p0))
+        (.intStack (tilesOf (zeroLike 0 p0) R C tr tc p0), overlapOfStack segs.length [p0])
+        (chanOk_tiles_int _ R C tr tc p0 hne hc) (tiles_length_ne_zero _ R C tr tc hR hC htr htc p0)
+        (tiles_sizes_ne_zero _ R C tr tc htr htc p0)
+        (by simp only [castValues, stackMax_tiles R C tr tc htr htc p0 hlen, hmax, ↓reduceIte,
+              overlap_tiles _ R C tr tc htr htc p0 hlen])]
+      exact castLabelmap_tiles_stack_error segs t R C tr tc htr htc p0 hlen _ e hl
+  | fltStack ps =>
+    obtain ⟨p0, rfl⟩ := List.length_eq_one_iff.mp hnp
+    have hlen : p0.length = R * C := hsz _ (by simp [Mask.planeSizes])
+    have hne : p0 ≠ [] := by
+      intro h; rw [h] at hlen; simp at hlen
+      have : 0 < R * C := Nat.mul_pos (by omega) (by omega)
+      omega
+    have hz : ∀ (q : Rat → Bool), q 0 = false → (zeroLike (0 : Rat) p0).any q = false := by
+      intro q hq
+      rw [List.any_eq_false]
+      intro x hx
+      rw [zeroLike_mem 0 p0 x hx, hq]; simp
+    have h1 := any_tiles_single (zeroLike (0 : Rat) p0) R C tr tc htr htc p0 hlen
+      (fun ch => ch.any fun x => decide (x < 0 ∨ 1 < x)) (hz _ (by simp))
+    have h2 := any_tiles_single (zeroLike (0 : Rat) p0) R C tr tc htr htc p0 hlen
+      (fun ch => ch.any fun x => decide (0 < x ∧ x < 1)) (hz _ (by simp))
+    have hnpT := tiles_length_ne_zero (zeroLike (0 : Rat) p0) R C tr tc hR hC htr htc p0
+    have hszT := tiles_sizes_ne_zero (zeroLike (0 : Rat) p0) R C tr tc htr htc p0
+    show castMask segs t (.fltStack (tilesOf (zeroLike 0 p0) R C tr tc p0)) = .error e
+    rcases castMask_error_inv segs t _ e hnp0 hsz0 hcm with ⟨hc, he⟩ | ⟨hc, hv⟩ | ⟨hc, r0, hv, hl⟩
+    · subst he
+      apply castMask_chan_error
+      simp only [chanOk, List.all_cons, List.all_nil, Bool.and_true] at hc
+      obtain ⟨ch, hch, hbad⟩ := List.all_eq_false.mp hc
+      obtain ⟨tile, htile, hct⟩ := mem_tiles_of_mem (zeroLike 0 p0) R C tr tc htr htc p0 hlen ch hch
+      simp only [chanOk]
+      rw [List.all_eq_false]
+      exact ⟨tile, htile, by rw [Bool.not_eq_true, List.all_eq_false]; exact ⟨ch, hct, hbad⟩⟩
+    · have hchanT := chanOk_tiles_flt _ R C tr tc p0 hne hc
+      apply castMask_of_error segs t _ _ hchanT hnpT hszT
+      simp only [castValues, h1, h2] at hv ⊢
+      split at hv
+      · rename_i hr; simp only [hr, ↓reduceIte]; exact hv
+      rename_i hr
+      simp only [hr, ↓reduceIte]
+      by_cases ht : t = .fractional
+      · simp only [ht, ↓reduceIte] at hv; cases hv
+      · simp only [ht, ↓reduceIte] at hv ⊢
+        split at hv
+        · rename_i hb; simp only [hb, ↓reduceIte]; exact hv
+        · cases hv
+    · have hchanT := chanOk_tiles_flt _ R C tr tc p0 hne hc
+      simp only [castValues] at hv
+      split at hv
+      · cases hv
+      rename_i hr
+      by_cases ht : t = .fractional
+      · simp only [ht, ↓reduceIte, Except.ok.injEq] at hv
+        subst hv
+        subst ht
+        simp [castLabelmap] at hl
+      · simp only [ht, ↓reduceIte] at hv
+        split at hv
+        · cases hv
+        rename_i hb
+        simp only [Except.ok.injEq] at hv
+        subst hv
+        have hmap : (tilesOf (zeroLike (0 : Rat) p0) R C tr tc p0).map (·.map (·.map ratToNat))
+            = tilesOf (zeroLike 0 (p0.map (·.map ratToNat))) R C tr tc (p0.map (·.map ratToNat)) :=
+          tilesOf_map (·.map ratToNat) _ _ (zeroLike_map_ratToNat p0) R C tr tc p0
+        have hlen' : (p0.map (·.map ratToNat)).length = R * C := by simpa using hlen
+        rw [castMask_of segs t (.fltStack (tilesOf (zeroLike 0 p0) R C tr tc p0))
+          (.intStack (tilesOf (zeroLike 0 (p0.map (·.map ratToNat))) R C tr tc (p0.map (·.map ratToNat))),
+            overlapOfStack segs.length [p0.map (·.map ratToNat)])
+          hchanT hnpT hszT
+          (by simp only [castValues, h1, h2, hr, hb, ht, ↓reduceIte, hmap, Bool.false_eq_true,
+                overlap_tiles _ R C tr tc htr htc _ hlen'])]
+        simp only [List.map_cons, List.map_nil] at hl
+        exact castLabelmap_tiles_stack_error segs t R C tr tc htr htc _ hlen' _ e hl
+
 /-- **Casting the matrix and cutting it afterwards is cutting first and casting the tiles** -- with the same
     `SegmentsOverlap`. -/
 theorem castMask_tileMask (segs : List Nat) (t : SegType) (R C tr tc : Nat) (hR : 1 ≤ R) (hC : 1 ≤ C) (htr : 1 ≤ tr)
